@@ -196,6 +196,11 @@ def eval_case(spec: Dict[str, Any], data: Dict[str, Any], index_kind: str = "def
 
     single = len(C.spec_tables(spec)) == 1
     evals, fails = [], []
+    # a pipeline whose result the semantics leave undetermined on this data (ties in a window ordering, a
+    # mid-chain limit cutting through ties) may legitimately differ between two evaluations: only the
+    # non-mutation half of the contract is checked for it
+    skip, _info = C.data_preconditions(spec, C.PrefixCache(spec, data), backends=("pandas", "polars"))
+    determined = skip in (None, "records-precondition")
     order = C.last_order_step(spec)
     for backend in ("pandas", "polars", "polars-lazy"):
         for entry in ENTRY_POINTS:
@@ -215,6 +220,8 @@ def eval_case(spec: Dict[str, Any], data: Dict[str, Any], index_kind: str = "def
                         warnings.simplefilter("ignore")
                         res = _call(entry, spec, frames)
                     results.append(_canon_result(res))
+                except wrap.HarnessError:
+                    raise
                 except Exception as e:
                     raised = "%s: %s" % (type(e).__name__, str(e)[:120])
                     results.append(("raise", type(e).__name__, str(e)[:120]))
@@ -238,9 +245,9 @@ def eval_case(spec: Dict[str, Any], data: Dict[str, Any], index_kind: str = "def
                 why = "mutation: " + "; ".join(sorted(set(mutated)))[:600]
             elif results[0][0] != results[1][0]:
                 why = "repeat: first call %s, second call %s" % (results[0][:2], results[1][:2])
-            elif results[0][0] == "ok":
+            elif results[0][0] == "ok" and determined:
                 why = _repeat_diff(results[0], results[1], order)
-            status = "fail" if why else ("raised" if results[0][0] == "raise" else "ok")
+            status = "fail" if why else ("raised" if results[0][0] == "raise" else ("ok" if determined else "ok-mutation-only"))
             evals.append((backend, entry, status))
             if why:
                 f = {"backend": backend, "entry": entry, "detail": why}
@@ -313,7 +320,7 @@ def bounded(rep: Report, tier: str, seed: int) -> None:
                 continue
             for be, entry, st in r["evals"]:
                 ecounts["%s %s %s" % (be, entry, st)] += 1
-                rep.case((tuple(r["ids"]), r["di"], be, entry), nontrivial=(st in ("ok", "fail")))
+                rep.case((tuple(r["ids"]), r["di"], be, entry), nontrivial=(st in ("ok", "fail", "ok-mutation-only")))
             if r["status"] == "ok":
                 rep.add_sample({"pipeline": "+".join(r["ids"]), "data": r["di"], "index": r["index_kind"], "evaluations": len(r["evals"])})
             for f in r["fails"]:
